@@ -1553,7 +1553,10 @@ def tail_chain_edits():
             c = lines[ln].index('(arg')
             e = len(lines[ln])
             for new, rect in (('  # 2', (ln, c, ln, e)), ('', (ln, c, ln, e)), ('(arg, 2, 33)', (ln, c, ln, e)),
-                              ('(arg,\n' + ' ' * depth + '     2)  # c', (ln, c, ln, e)), ('pass  # c', (ln, lines[ln].index('res'), ln, e))):
+                              ('(arg,\n' + ' ' * depth + '     2)  # c', (ln, c, ln, e)), ('pass  # c', (ln, lines[ln].index('res'), ln, e)),
+                              # a trailing semicolon created by the edit belongs to the enclosing blocks, not to the statement
+                              ('(arg, 2);', (ln, c, ln, e)), ('(arg, 2) ;  # c', (ln, c, ln, e)),
+                              (';', (ln, e, ln, e))):
                 out.append((src, (new, *rect), 'chain:' + '>'.join(chain)))
     return out
 
